@@ -297,6 +297,11 @@ func (c *Classifier) LoadLicenses(dir string) error {
 		if !strings.HasSuffix(path, "txt") {
 			return nil
 		}
+		// A directory can be named like a license file; it is walked into,
+		// not read.
+		if info.IsDir() {
+			return nil
+		}
 		files = append(files, path)
 		return nil
 	})
